@@ -113,6 +113,22 @@ fn read_term(t: Term, out: &mut Vec<i64>) {
         Some(d) => {
             out.push(1);
             enc_td(&d.value, out);
+            // TryFrom<TerminalData> for Datum<Command> / Datum<State>: the data's time with its command / state,
+            // Err(()) exactly when that part is absent.  A deviation is reported by the marker 94 (never produced by the model).
+            let td = d.value;
+            let want_c = td.command.map(|c| Datum::new(td.time, c));
+            let want_s = td.state.map(|s| Datum::new(td.time, s));
+            let got_c: Option<Datum<Command>> = Datum::<Command>::try_from(td).ok();
+            let got_s: Option<Datum<State>> = Datum::<State>::try_from(td).ok();
+            let mut a = Vec::new();
+            let mut b2 = Vec::new();
+            enc_odc(want_c, &mut a);
+            enc_ods(want_s, &mut a);
+            enc_odc(got_c, &mut b2);
+            enc_ods(got_s, &mut b2);
+            if a != b2 {
+                out.push(94);
+            }
         }
         None => out.push(0),
     }
@@ -248,6 +264,23 @@ pub fn run_world_case(l: &[i64]) -> Vec<i64> {
                     ));
                     terms.push(d.get_terminal());
                     devs.push(Dev::Pidw(d, fail, log));
+                }
+                9 => {
+                    // gear train from a Quantity ratio: GearTrain::with_ratio asserts that the ratio is dimensionless
+                    let r = f32::dec(l, p)?;
+                    let (m, sx) = (next(l, p)? as i8, next(l, p)? as i8);
+                    let d: &'static mut GearTrain<'static, E> = leak(GearTrain::with_ratio(Quantity::new(r, Unit::new(m, sx))));
+                    terms.push(d.get_terminal_1());
+                    terms.push(d.get_terminal_2());
+                    devs.push(Dev::Plain(d));
+                }
+                10 => {
+                    // Differential::new(): equal trust
+                    let d: &'static mut Differential<'static, E> = leak(Differential::new());
+                    terms.push(d.get_side_1());
+                    terms.push(d.get_side_2());
+                    terms.push(d.get_sum());
+                    devs.push(Dev::Plain(d));
                 }
                 _ => return None,
             }
